@@ -87,7 +87,7 @@ func (P) Gen(rng *sim.Rng, tier string) *harness.Case {
 					// a request through the outlier slots (custom chain) on a resource with an outlier rule
 					callers[i] = append(callers[i], harness.Op{K: "oreq", R: rng.Intn(3), F: rng.Chance(0.5)})
 				default:
-					op := harness.Op{K: "req", R: rng.Intn(len(resNames)), F: rng.Chance(0.3)}
+					op := harness.Op{K: "req", R: rng.Intn(len(resNames)), F: rng.Chance(0.3), N: uint64(rng.Intn(3))}
 					if op.F {
 						held++
 					}
@@ -212,6 +212,9 @@ func (P) Exec(c *harness.Case) *harness.Outcome {
 		_, _ = flow.LoadRulesOfResource(rStable, []*flow.Rule{{ID: "stable-block", Resource: rStable, TokenCalculateStrategy: flow.Direct, ControlBehavior: flow.Reject, Threshold: 0}})
 		_, _ = isolation.LoadRulesOfResource(rIso, isoList(0))
 		_, _ = hotspot.LoadRulesOfResource(rHot, hotList(0))
+		// the free resource carries a hot-parameter CONCURRENCY rule that never blocks: every admitted request on it
+		// looks its value up in the per-value counter cache on entry, on pass and on completion
+		_, _ = hotspot.LoadRulesOfResource(rFree, []*hotspot.Rule{{ID: "free-conc", Resource: rFree, MetricType: hotspot.Concurrency, ParamIndex: 0, Threshold: 1000000}})
 	}) {
 		return o
 	}
@@ -235,7 +238,8 @@ func (P) Exec(c *harness.Case) *harness.Outcome {
 					continue
 				}
 				r := &result{res: op.R, inv: sim.NextSeq()}
-				e, be := sentinel.Entry(resNames[op.R], harness.EntryOpts(3, false, []interface{}{7}, nil, nil)...)
+				// (a few distinct argument values: the per-value caches then hold several entries and every lookup reorders them)
+				e, be := sentinel.Entry(resNames[op.R], harness.EntryOpts(3, false, []interface{}{7 + int(op.N%3)}, nil, nil)...)
 				r.ret = sim.NextSeq()
 				if e != nil {
 					r.admitted = true
